@@ -264,6 +264,24 @@ fn exotic_item(rng: &mut Rng, k: usize) -> String {
         1 => format!("#[derive(Serialize, Deserialize)]\n#[serde({})]\npub struct S{}<'a, T = ()> {{ #[serde({})] pub {}: {}, #[validate({})] pub f: {} }}\n", attr_payload(rng), k, attr_payload(rng), id(rng), ty(rng), attr_payload(rng), ty(rng)),
         2 => format!("#[derive(Serialize)]\n#[serde({})]\npub enum E{} {{ #[serde({})] A, B({}), C {{ x: {} }}, D = 7 }}\n", attr_payload(rng), k, attr_payload(rng), ty(rng), ty(rng)),
         3 => format!("macro_rules! m{} {{ ($($t:tt)*) => {{ $($t)* }}; }}\nm{}! {{ #[tauri::command] fn hidden_{}() {{}} }}\n", k, k, k),
+        4 if rng.chance(1, 2) => {
+            // the calls the event walker inspects, with every argument count and receiver form
+            let recv = ["app", "window", "webview", "self.app", "self.window", "state.webview", "get_handle()", "app.clone()", "ctx.app_handle()", "w", "emitter"];
+            let mut body = String::new();
+            for _ in 0..1 + rng.below(4) {
+                let m = ["emit", "emit_to", "emit_filter", "emit_str", "emit_all"][rng.below(5)];
+                let nargs = rng.below(5);
+                let args: Vec<String> = (0..nargs).map(|q| match rng.below(5) {
+                    0 => lit(rng),
+                    1 => format!("\"ev-{}-{}\"", k, q),
+                    2 => ["payload", "&payload", "()", "1u8", "S { x: 1 }", "vec![1, 2]", "None::<u8>", "|w| true"][rng.below(8)].to_string(),
+                    3 => "EVENT_NAME".to_string(),
+                    _ => format!("format!(\"ev-{{}}\", {})", q),
+                }).collect();
+                body.push_str(&format!("    {}.{}({}){};\n", recv[rng.below(recv.len())], m, args.join(", "), ["", ".ok()", ".unwrap()", "?"][rng.below(4)]));
+            }
+            format!("#[tauri::command]\nfn evx_{}(app: tauri::AppHandle, window: tauri::Window, webview: tauri::Webview, payload: u8) -> Result<(), String> {{\n{}    Ok(())\n}}\n", k, body)
+        }
         4 => format!("#[tauri::command]\nfn ev_{}(app: tauri::AppHandle, w: tauri::Window) {{ app.emit({}, {}).unwrap(); w.emit_to(\"main\", \"e{}\", ({}, 1)).ok(); let f = |x: u8| app.emit(\"closure-{}\", x); loop {{ break; }} }}\n",
             k, lit(rng), ["1u8", "\"s\"", "S{x:1}", "vec![1]", "&payload", "payload.clone()", "()", "None::<u8>", "m!(1)", "async { 1 }.await"][rng.below(10)], k, lit(rng), k),
         5 => format!("#[cfg_attr(test, derive(Debug))]\n#[doc = {}]\n#[tauri::command(rename_all = \"snake_case\", async)]\npub(crate) unsafe extern \"C\" fn odd_{}({}: {}) {{}}\n", lit(rng), k, id(rng), ty(rng)),
